@@ -380,14 +380,19 @@ func (s *Sim) Observe() Obs {
 	return o
 }
 
+// errClass: the shim agent's own error kinds, told apart by sentinel (hook VerifErrKind), not by wording; the two
+// ad-hoc "agent is locked" errors of Sign / Signers have no sentinel and are recognised by their text
 func errClass(err error) string {
-	switch err.Error() {
-	case "agent: locked", "agent is locked":
+	switch shimagent.VerifErrKind(err) {
+	case "locked":
 		return "ELocked"
-	case "agent: not locked":
+	case "not-locked":
 		return "ENotLocked"
-	case "agent: key not found":
+	case "key-not-found":
 		return "EKeyNotFound"
+	}
+	if err.Error() == "agent is locked" {
+		return "ELocked"
 	}
 	return "EOther"
 }
